@@ -16,7 +16,9 @@ LEVEL = 'proof'
 TABLE = json.load(open(os.path.join(HERE, 'table.json')))
 def _check_table():
     hs = _gen.heads(open(os.path.join(REPO, 'src', 'goldilocks_cubic_extension.hpp')).read())
-    if [(n, p) for n, p in hs] != [(t['name'], t['params']) for t in TABLE]:
+    # compared by name and parameter classification (kind + parameter name): a changed integer width or const qualifier does not stale the generated files
+    cl = lambda ps: [_gen.classify(p) for p in ps]
+    if [(n, cl(p)) for n, p in hs] != [(t['name'], cl(t['params'])) for t in TABLE]:
         raise extract.ExtractError('C16: the routines defined in goldilocks_cubic_extension.hpp differ from props/C16/table.json (%d vs %d); re-run props/C16/gen.py' % (len(hs), len(TABLE)))
 R3 = ['&', 'const &', 'const &']
 def filt(repo_src, dst):
